@@ -41,10 +41,12 @@ CONFIG = dict(
         "CLOCK_MONOTONIC readings taken on different cores are mutually consistent (kernel guarantee)",
     ],
     units=[
-        dict(test="TestC28Flushable", quick=1500, thorough=64000, shards=16, race=True, shrinktime="3s"),
-        dict(test="TestC28Pool", quick=1500, thorough=64000, shards=16, race=True, shrinktime="3s"),
-        dict(test="TestC28Wlru", quick=2500, thorough=128000, shards=16, race=True, shrinktime="3s"),
-        dict(test="TestC28Semaphore", quick=2500, thorough=128000, shards=16, race=True, shrinktime="3s"),
-        dict(test="TestC28Buffer", quick=2500, thorough=128000, shards=16, race=True, shrinktime="3s"),
+        dict(test="TestC28Flushable", quick=1500, thorough=40000, shards=16, race=True, shrinktime="3s"),
+        dict(test="TestC28Pool", quick=1500, thorough=40000, shards=16, race=True, shrinktime="3s"),
+        dict(test="TestC28Wlru", quick=2500, thorough=80000, shards=16, race=True, shrinktime="3s"),
+        dict(test="TestC28Semaphore", quick=2500, thorough=80000, shards=16, race=True, shrinktime="3s"),
+        # listed before TestC28Buffer so that the KNOWN-FINDING line carries its (real) witness
+        dict(test="TestC28BufferMidPushRead", quick=400, thorough=32000, shards=16, race=True, shrinktime="3s"),
+        dict(test="TestC28Buffer", quick=2500, thorough=80000, shards=16, race=True, shrinktime="3s"),
     ],
 )
